@@ -133,4 +133,53 @@ theorem multi_drs_own_key_invisible :
       (essence cfgMultiDev [] (rsBody [("plain", .str "v"), ("kopf.dev/last-handled-configuration-ofDRS", .str "{}")]))
       = some 0 := by decide
 
+/-! ## MultiDiffBaseStorage: the transitional set-up of the docs, status storage first -/
+
+/-- `MultiDiffBaseStorage([StatusDiffBaseStorage(field='status.diff-base'), AnnotationsDiffBaseStorage(prefix='my-op.example.com')])`
+    (the status storage is NOT the last one). -/
+def cfgTransitional : Cfg :=
+  ⟨.multi [.status ["status", "diff-base"] [["spec", "replicas"]],
+           .annotations "my-op.example.com" "last-handled-configuration" true []],
+   [.annotations "kopf.zalando.org", .status ["status", "kopf", "progress"] ["status", "kopf", "dummy"]], hashes0⟩
+
+def bodyT (status anns : List (String × J)) : J :=
+  .obj [("kind", .str "KopfExample"), ("metadata", .obj [("name", .str "obj"), ("annotations", .obj anns)]),
+        ("spec", .obj [("a", .num 1), ("replicas", .num 3)]), ("status", .obj status)]
+
+def presentB (x : Except Err J) (p : List String) : Option Bool :=
+  match x with
+  | .ok e => some (match resolveE e p with | .ok _ => true | .error _ => false)
+  | .error _ => none
+
+/-- positive instance of `nested_own_writes_cleaned_partial` / `nested_ignored_fields_cleaned`, executed:
+    with handlers on `status` AND on `metadata.annotations`, storing the last-handled state (both nested
+    storages write: `status.diff-base`, the annotation) leaves `status.diff-base`, the annotation key and the
+    first storage's ignored `spec.replicas` out of the essence; the handler's own part of `status` stays.
+    (Seeded change C04d: the first storage's cleaning is lost, `status.diff-base` and `spec.replicas` are present.) -/
+theorem multi_transitional_store_invisible :
+    let x := [["status"], ["metadata", "annotations"]]
+    let after := essence cfgTransitional x (bodyT [("phase", .str "ok"), ("diff-base", .str "{}")]
+      [("note", .str "u"), ("my-op.example.com/last-handled-configuration", .str "{}"), ("my-op.example.com/kopf-managed", .str "yes")])
+    presentB after ["status", "diff-base"] = some false
+    ∧ presentB after ["metadata", "annotations", "my-op.example.com/last-handled-configuration"] = some false
+    ∧ presentB after ["spec", "replicas"] = some false
+    ∧ presentB after ["status", "phase"] = some true
+    ∧ presentB after ["metadata", "annotations", "note"] = some true := by
+  decide
+
+/-- F8 in a Multi configuration (still open): the full clause "no location the nested storages write is
+    in the essence" is false — the `kopf-managed` marker the annotations storage writes along with its
+    first store is restored by a handler on `metadata.annotations` and is an essential change, while
+    without that handler field the very same write is invisible. -/
+theorem multi_marker_restored_witness :
+    let before := bodyT [("phase", .str "ok")] [("note", .str "u")]
+    let after := bodyT [("phase", .str "ok"), ("diff-base", .str "{}")]
+      [("note", .str "u"), ("my-op.example.com/last-handled-configuration", .str "{}"), ("my-op.example.com/kopf-managed", .str "yes")]
+    presentB (essence cfgTransitional [["metadata", "annotations"]] after)
+        ["metadata", "annotations", "my-op.example.com/kopf-managed"] = some true
+    ∧ diffLen (essence cfgTransitional [["metadata", "annotations"]] before)
+        (essence cfgTransitional [["metadata", "annotations"]] after) = some 1
+    ∧ diffLen (essence cfgTransitional [["status"]] before) (essence cfgTransitional [["status"]] after) = some 0 := by
+  decide
+
 end Kopf.C04
